@@ -77,9 +77,10 @@ PassedBy(p) == {execs[i].w : i \in {j \in ExecIdx : execs[j].t = p /\ execs[j].s
 \* ---- C01: a required state is available where the test was told to look, or its producer failed in this run
 Avail(w, g) == \/ ("own" \in SeqToSet(T.poolscope) /\ g.s \in pool[w])
                \/ \E k \in 1..Len(g.src) : g.src[k] \in Locs /\ g.s \in pool[g.src[k]]
-Excused(g) == g.perm \/ Producer(g.s) = "none" \/ FailedThisRun(Producer(g.s))
+\* a required state nobody in the graph produces is only acceptable for permanent objects (externally provided)
+Excused(g) == g.perm \/ (Producer(g.s) # "none" /\ FailedThisRun(Producer(g.s)))
 StartOK(w) == \A k \in 1..Len(E.gets) : LET g == E.gets[k] IN
-                 Note(g.s \notin AllStates \/ Avail(w, g) \/ Excused(g), "C01", <<E.t, w, g.s>>)
+                 Note(Avail(w, g) \/ Excused(g), "C01", <<E.t, w, g.s>>)
 
 \* ---- C08: own worker, and exactly the workers with a passing producer are named as sources
 SourcesOK(w) == /\ Note(E.own, "C08", <<"not-own-worker", E.t, w>>)
